@@ -124,3 +124,19 @@ PROPS["C08"] = {
     "trusted": ["fmt::Formatter / Display plumbing of std"],
     "assumptions": [],
 }
+
+
+PROPS["C15"] = {
+    "id": "C15", "family": "c15", "allow_axioms": [],
+    "nshards": {"quick": 16, "thorough": 16},
+    "nontrivial": lambda case, impl: "{ $" in case,
+    "rule": "every pair of objects with <= 3 (quick) / <= 4 (thorough) entries over 2 keys and 5 / 8 values (scalars, "
+            "nested objects in both entry orders, an array) of equal length (plus length-mismatched samples); every "
+            "permutation of every such object against itself; random large values against a copy shuffled at every depth "
+            "(must be equal) and against a single mutation of it (one leaf, one key, or one entry replaced by a copy of "
+            "another: same length, different multiset). Observable: a.unordered_eq(b), b.unordered_eq(a), as_unordered "
+            "==, Unordered ==, reflexivity, plain ==; spec column: equality of recursively sorted normal forms. "
+            "Non-trivial: a case containing a non-empty object. distinct = distinct case lines.",
+    "trusted": ["lookups inside unordered_eq are modelled as linear scans (justified by C06's queries_scan for every reachable object)"],
+    "assumptions": [],
+}
